@@ -1,12 +1,21 @@
 #!/bin/sh
-# Build /repo/_build and run the pinned suite; report baseline tests that do not pass. (Developer helper, not a check.)
+# Build /repo/_build and run the pinned suite (the 104 baseline tests only); report baseline tests that do not pass.
+# Developer helper, not a check.
 cd /repo/_build && ninja > /tmp/ninja_baseline.log 2>&1 || { echo "BUILD FAILED"; tail -20 /tmp/ninja_baseline.log; exit 1; }
-ctest -j8 --timeout 900 > /tmp/ctest_baseline.log 2>&1
+RE=$(python3 -c "
+import json,re
+base=sorted(set(x.split('::')[0] for x in json.load(open('/root/.vp/BASELINE.json'))['stable_pass']))
+print('^(' + '|'.join(re.escape(b) for b in base) + ')\$')")
+rm -f /repo/_build/Testing/Temporary/LastTestsFailed.log
+ctest -j8 --timeout 900 -R "$RE" > /tmp/ctest_baseline.log 2>&1
 python3 - <<'PY'
-import json
+import json,os
 base=set(x.split('::')[0] for x in json.load(open('/root/.vp/BASELINE.json'))['stable_pass'])
-txt=open('/repo/_build/Testing/Temporary/LastTestsFailed.log').read()
+p='/repo/_build/Testing/Temporary/LastTestsFailed.log'
+txt=open(p).read() if os.path.exists(p) else ''
 failed=set(l.split(':',1)[1].strip() for l in txt.splitlines() if ':' in l)
 bad=sorted(base & failed)
-print('baseline tests: %d, failing now: %d %s' % (len(base), len(bad), bad))
+import re
+ran=re.findall(r'tests passed, (\d+) tests failed out of (\d+)', open('/tmp/ctest_baseline.log').read())
+print('baseline tests: %d, ran %s, failing now: %d %s' % (len(base), ran, len(bad), bad))
 PY
